@@ -95,6 +95,21 @@ def main():
             return x["outcome"] + (" (%s)" % x["kind"] if x.get("kind") else "")
         summ = re.split(r"(?<=[.;])\s", m.get("summary", "").replace("\n", " ").replace("|", "/"))[0][:200]
         L.append("| %s | %s | %s | %s |" % (sid, summ, fmt("quick"), fmt("thorough")))
+    # behaviour-preserving rewrites
+    hres = {}
+    hp = os.path.join(HERE, "harmless", "RESULTS.json")
+    if os.path.exists(hp):
+        hres = json.load(open(hp))
+    L.append("")
+    L.append("Behaviour-preserving rewrites (`harmless/<id>/`; expected outcome of the owning check: QUIET):\n")
+    L.append("| id | what was rewritten | quick |")
+    L.append("|---|---|---|")
+    for d in sorted(glob.glob(os.path.join(HERE, "harmless", "*", "meta.json"))):
+        m = json.load(open(d))
+        sid = m.get("id") or os.path.basename(os.path.dirname(d))
+        x = hres.get(sid, {}).get("quick")
+        summ = re.split(r"(?<=[.;])\s", m.get("summary", "").replace("\n", " ").replace("|", "/"))[0][:200]
+        L.append("| %s | %s | %s |" % (sid, summ, (x["outcome"] + (" (%s)" % x["kind"] if x.get("kind") else "")) if x else "-"))
     text = "\n".join(L) + "\n"
     dp = os.path.join(HERE, "DESIGN.md")
     s = open(dp).read()
